@@ -1,8 +1,8 @@
-(* C11c -- the correspondence cases of C11: the cases of PARTS A-C (Model/C11.v), the graph cases of PART D (Model/C11g.v) and the
-   shared-argument cases of PART E (Model/C11s.v) *)
+(* C11c -- the correspondence cases of C11: the cases of PARTS A-C (Model/C11.v), the graph cases of PART D (Model/C11g.v), the
+   shared-argument cases of PART E (Model/C11s.v) and the re-masking chains of PART F (Model/C11r.v) *)
 From Coq Require Import ZArith List Bool Lia.
 From PAV Require Import Base.Res Base.Check.
-From PAV Require Export Model.C11 Model.C11g Model.C11s.
+From PAV Require Export Model.C11 Model.C11g Model.C11s Model.C11r.
 Import ListNotations.
 
 (* ---- PART D: a run on a real object graph.  [inst]: which graph of the library (Model/C11g.v [ginstance]); [table]: per node, the
@@ -33,7 +33,10 @@ Inductive case :=
 | KGraph (inst : nat) (table : list arr) (reads : list nat) (out : list (arr * list nat * list nat))
   (* PART E: a history of OverSamplingDataset arguments shared between dataset constructors and apply_over_sampling calls, run on
      the real datasets: per step the record observed and the names whose record changed *)
-| KShare (ops : list sop) (out : list (obs * list (nat * arr))).
+| KShare (ops : list sop) (out : list (obs * list (nat * arr)))
+  (* PART F: a chain of apply_mask calls (and looks at datasets) on a real Imaging dataset built from the data array [data0] and the
+     noise covariance matrix [cov0]: per step the data (slim) and the covariance matrix of the dataset derived / looked at *)
+| KRemask (data0 : arr) (cov0 : option (list arr)) (ops : list rop) (out : list robs).
 
 Definition agree (k : case) : bool :=
   match k with
@@ -45,6 +48,7 @@ Definition agree (k : case) : bool :=
                            && forallb (fun ch => nat_mem ch (snd m)) (snd i))
            (gtrace g (tbl_vf table) (ginit g (tbl_vf table)) reads) out
   | KShare ops out => share_agree ops out
+  | KRemask data0 cov0 ops out => remask_agree data0 cov0 ops out
   end.
 (* the pure values: every read reports the value of its node (for a node that returns the array of another one: that node's
    value), and nothing that existed before a read changes.  Does not call the machine. *)
@@ -56,5 +60,6 @@ Definition spec_ok (k : case) : bool :=
       negb (is_nil g) &&
       all2 (fun n i => arr_eqb (gspec g (tbl_vf table) n) (fst (fst i)) && is_nil (snd i)) reads out
   | KShare ops out => share_spec_ok ops out
+  | KRemask data0 cov0 ops out => remask_spec_ok data0 cov0 ops out
   end.
 Definition check (k : case) : nat := verdict (agree k) (spec_ok k).
